@@ -207,6 +207,19 @@ def all_harnesses() -> List[H]:
     from . import table_ops, table_io
     hs += table_ops.harnesses()
     hs += table_io.harnesses()
+    # falsification twins (vacuity guard, thorough tier): one per harness family, same body with a
+    # final `assert!(false)` that the solver must report as failing; if it comes back "verified" the
+    # family's assumptions are unsatisfiable / its assertions unreachable.
+    seen = set()
+    twins = []
+    for h in hs:
+        key = (h.prop, "_".join(h.family.split("_")[:2]))   # coarse family, e.g. arith_add, eth_set, ipv4_dec
+        if key in seen or h.excl_of:
+            continue
+        seen.add(key)
+        twins.append(H(f"twin_{h.name}", h.prop, "thorough", f"{h.call}; assert!(false, \"VERIF-TWIN\")", h.family,
+                       h.sym, h.unwind, list(h.stubs), required=False, timeout=h.timeout, twin_of=h.name))
+    hs += twins
     names = [h.name for h in hs]
     assert len(names) == len(set(names)), "duplicate harness names"
     return hs
